@@ -266,15 +266,31 @@ def check_envelope_path(o, msg):
     want = k + 1 if direction == 'pop' else k - 1
     if {x[3] for x in idn} != {want}:
         return False, 'message ID is read from child ordinal(s) %s, expected the child adjacent to the protocolOp (%d)' % (sorted(x[3] for x in idn), want)
-    calls = [x[1].split('::')[-1] for x in absx.leaves(idt, lambda x: x[0] == 'call')]
-    for need in ('parse_uint', 'expect_primitive', 'match_id', 'match_class'):
-        if need not in calls:
-            return False, 'message ID element is not checked with %s' % need
-    mid = [x for x in absx.leaves(idt, lambda x: x[0] == 'call' and x[1].endswith('match_id'))]
-    if not any(a == ('lit', 2) or (a[0] == 'cast' and a[1] == ('ctor', 'Types::Integer', ())) for x in mid for a in x[2][1:]):
+    # the ID must be parse_uint applied to the WHOLE content of that child, reached only through the class / tag / primitive checks
+    def unwrap_some(t):
+        return t[1] if (t[0] == 'variant' and t[2] in ('Some', 'Ok') and t[3] == 0) else None
+    t = idt
+    if t[0] == 'cast':
+        t = t[1]
+    ok_chain = t[0] == 'field' and t[2] == '1'
+    t = unwrap_some(t[1]) if ok_chain else None
+    ok_chain = t is not None and t[0] == 'call' and t[1].endswith('::parse_uint') and len(t[2]) == 1
+    if not ok_chain:
+        return False, 'message ID is not the value of parse_uint(..): %s' % absx.fmt(idt)[:100]
+    t = unwrap_some(t[2][0])
+    if t is None or not (t[0] == 'call' and t[1].endswith('::expect_primitive')):
+        return False, 'parse_uint is not applied to the whole primitive content of the ID element (something sits between expect_primitive and parse_uint): %s' % absx.fmt(idt)[:140]
+    t = unwrap_some(t[2][0])
+    seen_checks = {}
+    while t is not None and t[0] == 'call' and t[1].rsplit('::', 1)[-1] in ('match_id', 'match_class'):
+        seen_checks[t[1].rsplit('::', 1)[-1]] = t[2][1]
+        t = unwrap_some(t[2][0])
+    if t is None or t[0] != 'nth' or ('variant', t, 'Some', 0) is None:
+        return False, 'the ID element is not taken directly from the envelope children'
+    mid = seen_checks.get('match_id')
+    if not (mid == ('lit', 2) or mid == ('cast', ('ctor', 'Types::Integer', ()), 'u64')):
         return False, 'message ID element is not required to be INTEGER (universal 2)'
-    mcl = [x for x in absx.leaves(idt, lambda x: x[0] == 'call' and x[1].endswith('match_class'))]
-    if not any(a == ('ctor', 'TagClass::Universal', ()) for x in mcl for a in x[2][1:]):
+    if seen_checks.get('match_class') != ('ctor', 'TagClass::Universal', ()):
         return False, 'message ID element is not required to be of universal class'
     # controls: from the trailing [0] constructed child, or empty
     cn = {x for x in nth(ctrls) if x[1] == base}
